@@ -1537,6 +1537,12 @@ func (sc *serverConn) handleHeaderFrame(strm *Stream, fr *FrameHeader) error {
 		// The block is open again until its END_HEADERS, and the request is
 		// not complete, and not dispatched, before that.
 		strm.headersFinished = false
+
+		// Trailers carry no pseudo-header fields (RFC 7540 8.1.2.1), whatever
+		// the header block before them looked like: one that had no regular
+		// field left the mark unset, and an :authority in the trailers then
+		// went into the request as its host.
+		strm.regularSeen = true
 	}
 
 	if headerFrame, ok := fr.Body().(*Headers); ok && headerFrame.Stream() == strm.ID() {
